@@ -132,7 +132,12 @@ def _events(facts, cls, f, depth=0, seen=frozenset()):
             args = list(n.get("args", []))
             if k == "OpCall" and cal.get("cls") and args:
                 recv, args = args[0], args[1:]
-            for c in ([recv] if recv is not None else []) + args:
+            skip_recv = False
+            if k == "MCall" and callee_name(n) == "swap" and len(args) == 1 and _member_path(recv) and len(_member_path(recv)) == 2:
+                ub_ = unwrap_all_casts(args[0])
+                if isinstance(ub_, dict) and ub_.get("k") == "Ref" and ub_.get("d") == "local":
+                    skip_recv = True        # the old value goes into a local that is thrown away: not a use of the member
+            for c in ([recv] if (recv is not None and not skip_recv) else []) + args:
                 visit(c)
             # by-reference arguments
             for a, t in zip(args, cal.get("sig", []) or []):
@@ -175,7 +180,7 @@ def _events(facts, cls, f, depth=0, seen=frozenset()):
                     if mp and k == "MCall" and callee_name(n) == "swap" and len(args) == 1 and len(mp) == 2:
                         ub = unwrap_all_casts(args[0])
                         if isinstance(ub, dict) and ub.get("k") == "Ref" and ub.get("d") == "local":
-                            out.append(("w", mp[1], {"k": "SwapIn", "local": ub}, n, f))
+                            out.append(("w", mp[1], {"k": "SwapIn", "local": ub, "node": n}, n, f))
                             return
                     if mp and not cal.get("const") and not cal.get("static") and k in ("MCall", "OpCall"):
                         nm = callee_name(n) or ""
@@ -190,7 +195,7 @@ def _events(facts, cls, f, depth=0, seen=frozenset()):
                     mp = _member_path(a)
                     if mp:
                         ub = unwrap_all_casts(b)
-                        out.append(("w", mp[1], ({"k": "SwapIn", "local": ub} if isinstance(ub, dict) and ub.get("k") == "Ref" and ub.get("d") == "local" and len(mp) == 2 else None), n, f))
+                        out.append(("w", mp[1], ({"k": "SwapIn", "local": ub, "node": n} if isinstance(ub, dict) and ub.get("k") == "Ref" and ub.get("d") == "local" and len(mp) == 2 else None), n, f))
             return
         if k == "Member":
             mp = _member_path(n)
@@ -203,7 +208,7 @@ def _events(facts, cls, f, depth=0, seen=frozenset()):
     return out
 
 
-def _canon(V, f, stores_before, facts=None, consts=False, prefer=None):
+def _canon(V, f, stores_before, facts=None, consts=False, prefer=None, eval_pos=None, order=None):
     """V over the state the function leaves behind: a sub-expression that was stored into member s (and s not written since)
     is `this.s`; -> (text, set of members read) or None when something else than members / literals remains"""
     txt_map = {}
@@ -215,7 +220,12 @@ def _canon(V, f, stores_before, facts=None, consts=False, prefer=None):
             continue
         if isinstance(X, dict) and X.get("k") == "SwapIn":
             key = path(X["local"])[0] if path(X["local"]) else None
-            stale_locals[show(X["local"])] = s_
+            swap_pos = (order or {}).get(id(X.get("node"))) if X.get("node") is not None else None
+            if eval_pos is not None and swap_pos is not None and eval_pos < swap_pos:
+                # evaluated before the exchange: the local still holds what the member is about to receive
+                txt_map[show(X["local"])] = s_
+            else:
+                stale_locals[show(X["local"])] = s_
             X = env.defs.get(key) if (env is not None and key) else None
             if X is None:
                 continue
@@ -285,6 +295,15 @@ def _canon(V, f, stores_before, facts=None, consts=False, prefer=None):
         return {kk: (rec(vv) if isinstance(vv, (dict, list)) else vv) for kk, vv in n.items() if kk not in ("l", "cv")}
     if isinstance(V, dict) and V.get("k") == "SwapIn":
         return None
+    if facts is not None and any(x.get("k") == "Ref" and x.get("d") == "global" and x.get("const") for x in walk(V)):
+        # named constants read as their value (constructor initialisers are not normalised)
+        from . import normalize as _nz
+        w_ = {"k": "Return", "e": copy.deepcopy(V)}
+        try:
+            _nz.substitute_named_constants(w_, facts)
+            V = w_["e"]
+        except Exception:
+            pass
     c = rec(V)
     if stale:
         return ("<stale>", set(stale), None, set())
@@ -346,13 +365,23 @@ def analyse(facts, cls, methods=None, record=None):
                 if e2[0] == "w" and e2[1] != D:
                     before[e2[1]] = e2[2]
             V = e[2]
+            hf = e[4]
+            order_ = {id(x): i for i, x in enumerate(walk(hf["body"]))} if hf.get("body") is not None else {}
+            eval_pos = order_.get(id(e[3])) if isinstance(e[3], dict) else None
+            if isinstance(V, dict) and V.get("k") == "SwapIn":
+                # exchanged with a local: the member takes the value the local was built with
+                key_ = path(V["local"])[0] if path(V["local"]) else None
+                d_ = ir.Env(hf["body"]).defs.get(key_) if (key_ and hf.get("body") is not None) else None
+                if d_ is not None:
+                    V = d_
+                    eval_pos = order_.get(id(d_), eval_pos)
             uv = unwrap_all_casts(V)
             while isinstance(uv, dict) and uv.get("k") == "Construct" and uv.get("copymove") and len(uv.get("args", [])) == 1:
                 uv = unwrap_all_casts(uv["args"][0])
             if isinstance(uv, dict) and uv.get("k") == "Member" and uv.get("n") == D and _member_path(uv) is None and path(uv):
                 copies.append((f, e, path(uv)[:-1]))
                 continue
-            c = _canon(V, f, before, facts)
+            c = _canon(V, hf, before, facts, eval_pos=eval_pos, order=order_)
             forms.append(c)
             sites.append((f, e))
             retry.append((len(forms) - 1, V, f, before) if f.get("ctor") else None)
@@ -379,6 +408,30 @@ def analyse(facts, cls, methods=None, record=None):
         if len(real) < 2 and not (real and stale_sites):
             continue
         texts = set(c[0] for c in real)
+        if len(texts) != 1 and derived:
+            # the same value spelled over another derived member (`m_final + ".part"` / `m_value + m_ext + ".part"`)
+            def expand_(n, depth=0):
+                if isinstance(n, list):
+                    return [expand_(x, depth) for x in n]
+                if not isinstance(n, dict):
+                    return n
+                if n.get("k") == "Member" and n.get("n") in derived and n.get("n") != D and depth < 4:
+                    b_ = unwrap_all_casts(n.get("base"))
+                    if isinstance(b_, dict) and b_.get("k") == "This":
+                        return expand_(copy.deepcopy(derived[n["n"]]["E"]), depth + 1)
+                return {kk: (expand_(vv, depth) if isinstance(vv, (dict, list)) else vv) for kk, vv in n.items()}
+            real2 = []
+            for c in real:
+                e2 = expand_(c[2])
+                m2 = set()
+                for x in walk(e2):
+                    mp_ = _member_path(x) if x.get("k") == "Member" else None
+                    if mp_:
+                        m2.add(mp_[1])
+                real2.append((show(e2), m2, e2, c[3]))
+            if len(set(c[0] for c in real2)) == 1:
+                real = real2
+                texts = set(c[0] for c in real)
         S = set()
         for c in real:
             S |= c[1]
